@@ -473,6 +473,10 @@ class Doist(tyming.Tymist):
         if deeds is None:
             deeds = self.deeds
 
+        if (None, None, None) in deeds:  # stopped mid recur so deeds is rotated
+            # rotate marker to front to restore enter order before closing
+            deeds.rotate(-deeds.index((None, None, None)))
+
         while(deeds):  # .close each remaining dog in deeds in reverse order
             dog, retime, doer = deeds.pop()  # pop it off in reverse (right side)
             if not dog:  # marker deed
@@ -1347,6 +1351,10 @@ class DoDoer(Doer):
         """
         if deeds is None:
             deeds = self.deeds
+
+        if (None, None, None) in deeds:  # stopped mid recur so deeds is rotated
+            # rotate marker to front to restore enter order before closing
+            deeds.rotate(-deeds.index((None, None, None)))
 
         while(deeds):  # .close each remaining dog in deeds in reverse order
             dog, retime, doer = deeds.pop()  # pop it off in reverse (right side)
